@@ -254,3 +254,6 @@ def run(prog, rep, tier, cfg):
         at = prog.slicer.operand(site.fn, site.args[1])
         okv = has_atom(at, 'C:Runtime::read_only') or (has_atom(at, 'V:1') and not has_atom(at, 'V:0'))
         rep.need('K10', 'System::new:readonly:%s' % site.fn.id.split('::')[-1], okv, 'System::new must receive rt.read_only() (or constant true), got %s' % sendsmod.pretty(at), site.where)
+    # ---- error discipline: no Result produced in these crates is silently discarded
+    X.no_dropped_results('K14', 'results-not-discarded', ['fil_actor_evm', 'fil_actors_evm_shared'], 'no Result of a call is discarded')
+
